@@ -286,8 +286,11 @@ def random_bytes(tier, seed, n=None):
         a = ans(ccp=1, ma=5, etag=1, fr=r.randrange(0, 6), body=r.choice([0, 1, 2, 3, 6, 6, 6, 4]), hop=r.randrange(0, 2), age=r.choice([NONE, 3]),
                 st=r.choice([200, 200, 203, 404, 410, 301]))
         a304 = ans(k="304", st=304, ccp=1, ma=50, etag=1, upd=1, hop=r.randrange(0, 2))
+        if i % 2 == 1:
+            a["swr"] = 60  # the stale serve happens under stale-while-revalidate; the caller reads the body late
         steps = [{"op": "req", "rq": rq(), "ans": [a]}, {"op": "tick", "d": 2}, {"op": "req", "rq": rq(), "ans": []},
-                 {"op": "tick", "d": 9}, {"op": "req", "rq": rq(), "ans": [a304]}, {"op": "tick", "d": 2}, {"op": "req", "rq": rq(), "ans": []}]
+                 {"op": "tick", "d": 9}, {"op": "req", "rq": rq(), "ans": [a304], "latebody": i % 2}, {"op": "tick", "d": 2},
+                 {"op": "req", "rq": rq(), "ans": []}]
         out.append({"id": "rndbytes/%05d" % i, "backend": ["mem", "fs", "fsenc"][i % 3], "opt": {}, "steps": steps, "grp": "", "spv": 0})
     return out
 
@@ -358,7 +361,7 @@ def _bytes(r, n, kind):
     return bytes(r.choice(b"abcxyz/.#%") for _ in range(n))
 
 
-CHUNKS = [(36, 156, 36), (36, 36, 36), (1, 1, 1), (191, 1, 1), (192, 36, 36), (3, 189, 3), (35, 1, 156), (72, 144, 36), (0, 5, 5),
+CHUNKS = [(211, 71, 35), (36, 156, 36), (36, 36, 36), (1, 1, 1), (191, 1, 1), (192, 36, 36), (3, 189, 3), (35, 1, 156), (72, 144, 36), (0, 5, 5),
           (36, 105, 51), (141, 51, 1), (189, 3, 36), (255, 1, 1), (33, 3, 300), (36, 1000, 1000)]
 VSIZES = [0, 1, 17, 100, 4096, 70000]
 
@@ -434,6 +437,30 @@ def kv_random(tier, seed, n=None):
             else:
                 ops.append({"op": "reopen"})
         out.append({"id": "kvrnd/%05d" % i, "backend": ["fs", "fsenc", "mem"][i % 3], "keys": keys, "vals": vals, "ops": ops})
+    return out + kv_lengths(tier)
+
+
+def kv_lengths(tier):
+    """one key of every length around the file-name and fragment boundaries; and keys with literal percent escapes
+    through the HTTP API"""
+    out = []
+    top = 470 if tier == "quick" else 1300
+    for n in list(range(170, top)) + [1500, 2820, 4096]:
+        for be in (("fs",) if n % 2 else ("fsenc",)):
+            k1 = ("https://example.com/" + "q" * n)[:n].encode()
+            k2 = k1 + b"/x"
+            ops = [{"op": "set", "k": 0, "v": 0}, {"op": "set", "k": 1, "v": 1}, {"op": "get", "k": 0}, {"op": "get", "k": 1}, {"op": "keys", "p": -1},
+                   {"op": "keys", "p": 0}, {"op": "reopen"}, {"op": "api_get", "k": 0}, {"op": "del", "k": 0}, {"op": "get", "k": 1}, {"op": "keys", "p": -1}]
+            out.append({"id": "len/%s-%04d" % (be, n), "backend": be, "keys": [base64.b64encode(k).decode() for k in (k1, k2)],
+                        "vals": [{"len": 10, "seed": n}, {"len": 20, "seed": n + 1}], "ops": ops})
+    esc = [b"https://example.com/a%2Fb?x=%20", b"https://example.com/a/b?x= ", b"https://example.com/a%252Fb?x=%2520", b"https://example.com/100%25",
+           b"https://example.com/100%", b"https://example.com/a%23b", b"https://example.com/a#b"]
+    keys = [base64.b64encode(k).decode() for k in esc]
+    for be in ("mem", "fs", "fsenc"):
+        ops = [{"op": "set", "k": i, "v": i % 3} for i in range(len(esc))]
+        ops += [{"op": "api_get", "k": i} for i in range(len(esc))]
+        ops += [{"op": "api_del", "k": 0}, {"op": "api_del", "k": 3}] + [{"op": "get", "k": i} for i in range(len(esc))] + [{"op": "api_list", "p": -1}]
+        out.append({"id": "esc/%s" % be, "backend": be, "keys": keys, "vals": [{"len": 5, "seed": 1}, {"len": 6, "seed": 2}, {"len": 7, "seed": 3}], "ops": ops})
     return out
 
 
@@ -498,7 +525,14 @@ def kv_crypto(tier, seed, n=None):
                {"op": "reopen_wrongkey"}, {"op": "get", "k": 0}, {"op": "reopen_plain"}, {"op": "get", "k": 0}, {"op": "reopen"}, {"op": "get", "k": 0}]
         out.append({"id": "keys/%d" % vlen, "backend": "fsenc", "keys": keys, "vals": vals, "ops": ops})
     vals = [{"len": 200, "seed": 17}, {"len": 64, "seed": 19}]
-    for how in ("opt_ok", "opt_empty", "opt_badb64", "opt_short", "opt_15bytes", "dsn_ok", "dsn_aesgcm_ok", "dsn_nokey", "dsn_aesgcm_nokey",
-                "dsn_badkey", "dsn_shortkey", "dsn_env_ok", "dsn_env_empty", "dsn_env_bad"):
+    hows = ["opt_ok", "opt_empty", "opt_badb64", "opt_short", "opt_15bytes", "dsn_ok", "dsn_aesgcm_ok", "dsn_nokey", "dsn_aesgcm_nokey",
+            "dsn_badkey", "dsn_shortkey", "dsn_env_ok", "dsn_env_empty", "dsn_env_bad"]
+    hows += ["%s_len:%d" % (w, n) for w in ("opt", "dsn", "env") for n in (1, 8, 15, 16, 17, 23, 24, 25, 31, 32, 33, 40, 48, 64)]
+    for be in ("fsenc",):
+        for rnd in range(2 if tier == "quick" else 10):
+            ks = [base64.b64encode(b"ek-%d" % i).decode() for i in range(8)]
+            out.append({"id": "encstress/%d" % rnd, "backend": be, "keys": ks, "vals": [{"len": 64, "seed": 77}],
+                        "ops": [{"op": "encstress", "k": 0, "v": 0, "n": 8, "cut": 150}] + [{"op": "get", "k": i} for i in range(8)]})
+    for how in hows:
         out.append({"id": "open/" + how, "backend": "fs", "keys": keys, "vals": vals, "ops": [{"op": "open_enc", "how": how, "v": 0}]})
     return out
